@@ -31,6 +31,19 @@ type c05SphCfg struct {
 	pers  protocol.Perspective
 	start protocol.PacketNumber // first packet number of every space (0: production default)
 	uquic bool                  // first op selects a uQUIC Initial packet number spec
+	// specs is the table the first op chooses from (nil: c05USpecs, the parrots' configurations)
+	specs []c05USpec
+	// initialOnly restricts the alphabet to the Initial space - the only one a spec touches -
+	// (send Initial, ack, retry) and adds the loss timer (op lose), so that the depth bound is
+	// spent on (sent, acknowledged, lost) histories of Initial packets
+	initialOnly bool
+}
+
+func (cfg c05SphCfg) table() []c05USpec {
+	if cfg.specs != nil {
+		return cfg.specs
+	}
+	return c05USpecs
 }
 
 // uQUIC Initial packet number specs: the ones of the in-tree parrots (u_parrot.go) and
@@ -52,6 +65,31 @@ var c05USpecs = []c05USpec{
 	{name: "pn 1, lengths [3,1]", base: 1, lens: []protocol.PacketNumberLen{3, 1}},
 }
 
+// c05UEdgeSpecs: what a QUICSpec may say beyond the parrots - a first Initial packet number
+// (InitPacketNumber, any value below 2^32 is accepted by Transport.Dial) next to the value
+// from which a spec'd length of L bytes stops being recoverable by a peer that has processed
+// nothing, i.e. 2^(8L): bases 2^(8L)-2, 2^(8L)-1 and 2^(8L) itself (L = 4: 2^32-2, 2^32-1),
+// each with the single-value override L, the one-entry list [L] and the list [4, L] (a long
+// first packet number, then the short one for every later packet).
+func c05UEdgeSpecs() []c05USpec {
+	var specs []c05USpec
+	for l := protocol.PacketNumberLen(1); l <= 4; l++ {
+		edge := protocol.PacketNumber(1) << (8 * uint(l))
+		for _, base := range []protocol.PacketNumber{edge - 2, edge - 1, edge} {
+			if base >= 1<<32 {
+				continue // rejected by Transport.Dial
+			}
+			specs = append(specs,
+				c05USpec{name: fmt.Sprintf("pn 2^%d%+d, length %d", 8*l, int64(base-edge), l), base: base, one: l},
+				c05USpec{name: fmt.Sprintf("pn 2^%d%+d, lengths [%d]", 8*l, int64(base-edge), l), base: base, lens: []protocol.PacketNumberLen{l}})
+			if l < 4 {
+				specs = append(specs, c05USpec{name: fmt.Sprintf("pn 2^%d%+d, lengths [4,%d]", 8*l, int64(base-edge), l), base: base, lens: []protocol.PacketNumberLen{4, l}})
+			}
+		}
+	}
+	return specs
+}
+
 const (
 	c05SpInitial = iota
 	c05SpHandshake
@@ -62,6 +100,7 @@ var c05SpaceNames = []string{"initial", "handshake", "appdata"}
 
 type c05SpaceModel struct {
 	exists       bool
+	first        int64 // nothing below it was ever sent in this space
 	last         int64
 	largestAcked int64
 	inFlight     []int64
@@ -79,7 +118,9 @@ type c05SphInst struct {
 	acked    bool
 	sent1RTT bool
 	sent0RTT bool
+	loses    int
 	outcome  string
+	lenClass string // last send: length on the wire vs. spec'd length
 	spec     int
 }
 
@@ -90,6 +131,7 @@ func (in *c05SphInst) build(initialPN protocol.PacketNumber) {
 		in.sp[i] = c05SpaceModel{exists: true, last: -1, largestAcked: -1}
 	}
 	in.sp[c05SpInitial].last = int64(initialPN) - 1
+	in.sp[c05SpInitial].first = int64(initialPN)
 	if in.cfg.start != 0 {
 		// state injection: spaces whose first packet number is not configurable start as if
 		// `start` packets had been sent and none acknowledged
@@ -127,10 +169,13 @@ func c05SpaceOf(l int) int { return min(l, c05SpApp) }
 func (in *c05SphInst) Ops() []explore.Op {
 	if in.h == nil {
 		var ops []explore.Op
-		for k := range c05USpecs {
+		for k := range in.cfg.table() {
 			ops = append(ops, explore.Op{N: "spec", A: k})
 		}
 		return ops
+	}
+	if in.cfg.initialOnly {
+		return in.initialOps()
 	}
 	var ops []explore.Op
 	for l := 0; l < 4; l++ {
@@ -170,6 +215,28 @@ func (in *c05SphInst) Ops() []explore.Op {
 	return ops
 }
 
+// initialOps is the alphabet of the Initial-only parts: send an Initial, acknowledge the
+// largest | smallest Initial in flight, Retry (once, before any acknowledgement), and the
+// loss detection timer (lose: 10 s pass, OnLossDetectionTimeout - a PTO, or the time-threshold
+// loss of what an earlier acknowledgement left behind; at most twice per history).
+func (in *c05SphInst) initialOps() []explore.Op {
+	m := &in.sp[c05SpInitial]
+	ops := []explore.Op{{N: "send", A: 0}}
+	if len(m.inFlight) > 0 {
+		ops = append(ops, explore.Op{N: "ack", A: c05SpInitial, B: 0})
+		if len(m.inFlight) > 1 {
+			ops = append(ops, explore.Op{N: "ack", A: c05SpInitial, B: 1})
+		}
+		if !in.retried && !in.acked {
+			ops = append(ops, explore.Op{N: "retry"})
+		}
+		if in.loses < 2 {
+			ops = append(ops, explore.Op{N: "lose"})
+		}
+	}
+	return ops
+}
+
 func (in *c05SphInst) send(l, c int) *explore.Fail {
 	s := c05SpaceOf(l)
 	m := &in.sp[s]
@@ -187,9 +254,11 @@ func (in *c05SphInst) send(l, c int) *explore.Fail {
 	if pn < 0 || int64(pn) > 1<<62-1 || pnLen < 1 || pnLen > 4 {
 		return explore.Failf("packet-number-invalid:"+name, "PeekPacketNumber(%s) = (%d, %d)", level, pn, pnLen)
 	}
-	// every receiver state consistent with the acknowledgements: largest processed number in
-	// [largestAcked, pn-1], or nothing processed yet (openers start at 0) when nothing was acknowledged
-	lo := max(m.largestAcked, 0)
+	// every receiver state consistent with the acknowledgements: the largest number processed is
+	// one that was sent (>= the first number of the space) and lies in [largestAcked, pn-1], or
+	// nothing was processed yet when nothing was acknowledged (RFC 9000 A.3 then expects 0; the
+	// repository's openers start as if packet 0 had been processed: both are asked)
+	lo := max(m.largestAcked, m.first)
 	var rs []int64
 	if int64(pn)-lo <= 400 {
 		for r := lo; r < int64(pn); r++ {
@@ -199,7 +268,17 @@ func (in *c05SphInst) send(l, c int) *explore.Fail {
 		rs = []int64{lo, lo + 1, (lo + int64(pn)) / 2, int64(pn) - 2, int64(pn) - 1}
 	}
 	if m.largestAcked < 0 {
-		rs = append(rs, 0)
+		rs = append(rs, -1, 0)
+	}
+	// RFC 9000 offers no encoding when even 4 bytes are not recovered by every such receiver
+	// (more than 2^31 numbers above the largest acknowledged one, or a space whose numbers
+	// reach 2^32 before anything was acknowledged): the statement is silent there
+	encodable := true
+	for _, r := range rs {
+		encodable = encodable && ref5.DecodePacketNumber(r, uint64(pn)&0xffffffff, 4) == uint64(pn)
+	}
+	if !encodable {
+		rs = nil
 	}
 	trunc := int64(pn) & (int64(1)<<(8*uint(pnLen)) - 1)
 	for _, r := range rs {
@@ -208,7 +287,7 @@ func (in *c05SphInst) send(l, c int) *explore.Fail {
 			return explore.Failf(fmt.Sprintf("pn-decode-differs:len=%d", pnLen), "DecodePacketNumber(len=%d, largest=%d, truncated=%#x) = %d, RFC 9000 A.3 gives %d", pnLen, r, trunc, got, ref)
 		}
 		if got != pn {
-			return explore.Failf(fmt.Sprintf("pn-undecodable:%s:len=%d", name, pnLen), "%s space: pn=%d is sent with a %d-byte packet number (%#x) while the largest acknowledged is %d; a receiver whose largest processed number is %d decodes %d", name, pn, pnLen, trunc, m.largestAcked, r, got)
+			return explore.Failf(fmt.Sprintf("pn-undecodable:%s:len=%d", name, pnLen), "%s space: pn=%d is sent with a %d-byte packet number (%#x) while the largest acknowledged is %d; a receiver whose largest processed number is %d (-1: none) decodes %d", name, pn, pnLen, trunc, m.largestAcked, r, got)
 		}
 	}
 	in.h.SentPacket(in.now, pn, protocol.InvalidPacketNumber, nil, []Frame{{Frame: &wire.PingFrame{}}}, level, protocol.ECNNon, 100, false, false)
@@ -221,6 +300,20 @@ func (in *c05SphInst) send(l, c int) *explore.Fail {
 		in.sent0RTT = true
 	}
 	in.outcome = fmt.Sprintf("send %s len=%d gap=%d", level, pnLen, min(int64(pn)-m.largestAcked, 9))
+	if in.spec >= 0 && l == 0 {
+		// spec'd length kept, or replaced by a longer / shorter one
+		sp := in.cfg.table()[in.spec]
+		want := sp.one
+		if len(sp.lens) > 0 {
+			want = sp.lens[min(max(int64(pn)-int64(sp.base), 0), int64(len(sp.lens)-1))]
+		}
+		in.outcome += fmt.Sprintf(" spec=%d", want)
+		in.lenClass = fmt.Sprintf("%d/%d", pnLen, want)
+	}
+	if !encodable {
+		in.outcome += " no-encoding-exists(out of domain)"
+		in.lenClass += "(no encoding exists)"
+	}
 	return nil
 }
 
@@ -228,7 +321,7 @@ func (in *c05SphInst) Apply(op explore.Op) *explore.Fail {
 	in.outcome = op.N
 	switch op.N {
 	case "spec":
-		sp := c05USpecs[op.A]
+		sp := in.cfg.table()[op.A]
 		in.spec = op.A
 		in.build(sp.base) // u_transport.go passes InitPacketNumber as the Initial space's first number
 		if len(sp.lens) > 0 {
@@ -237,6 +330,9 @@ func (in *c05SphInst) Apply(op explore.Op) *explore.Fail {
 			SetInitialPacketNumberLength(in.h, sp.one)
 		}
 		in.outcome = "spec " + sp.name
+		if in.cfg.specs != nil {
+			in.outcome = fmt.Sprintf("spec kind one=%d lens=%v", sp.one, sp.lens)
+		}
 	case "send":
 		return in.send(op.A, op.C)
 	case "ack":
@@ -263,6 +359,11 @@ func (in *c05SphInst) Apply(op explore.Op) *explore.Fail {
 		// the Retry invalidates what is in flight, not the packet numbers used so far
 		in.sp[c05SpInitial].inFlight = nil
 		in.sp[c05SpApp].inFlight = nil
+	case "lose":
+		in.now += monotime.Time(10_000_000_000)
+		err := in.h.OnLossDetectionTimeout(in.now)
+		explore.Must(err == nil, "OnLossDetectionTimeout: %v", err)
+		in.loses++
 	case "drop-initial":
 		in.h.DropPackets(protocol.EncryptionInitial, in.now)
 		in.sp[c05SpInitial].exists = false
@@ -281,14 +382,14 @@ func c05SphSkip(typ, field string) bool { return typ == "utils.Rand" && field ==
 
 func (in *c05SphInst) Key() string {
 	var sb strings.Builder
-	fmt.Fprintf(&sb, "spec=%d retried=%v acked=%v 1rtt=%v 0rtt=%v\n", in.spec, in.retried, in.acked, in.sent1RTT, in.sent0RTT)
+	fmt.Fprintf(&sb, "spec=%d retried=%v acked=%v 1rtt=%v 0rtt=%v loses=%d now=%d\n", in.spec, in.retried, in.acked, in.sent1RTT, in.sent0RTT, in.loses, in.now)
 	if in.h == nil {
 		return sb.String()
 	}
 	opt := canon.Options{SkipField: c05SphSkip}
 	for s, sp := range []*packetNumberSpace{in.sph.initialPackets, in.sph.handshakePackets, in.sph.appDataPackets} {
 		m := in.sp[s]
-		fmt.Fprintf(&sb, "%s M{%v %d %d %v} ", c05SpaceNames[s], m.exists, m.last, m.largestAcked, m.inFlight)
+		fmt.Fprintf(&sb, "%s M{%v %d %d %d %v} ", c05SpaceNames[s], m.exists, m.first, m.last, m.largestAcked, m.inFlight)
 		if sp != nil {
 			// what determines future packet numbers and lengths: the generator, the ACK state and the history
 			sb.WriteString(canon.Dump(sp.pns, opt))
@@ -306,13 +407,20 @@ func c05SphPart(name string, cfg c05SphCfg) explore.Part {
 		if e.Thorough() {
 			depth = 10
 		}
-		// for the uQUIC part the first op selects one of the 7 specs (7 resp. 9 ops follow)
+		// for the uQUIC parts the first op selects one of the specs (7 resp. 9 ops follow)
+		if cfg.initialOnly {
+			depth += 2 // small alphabet: spec + 9 resp. 11 ops
+		}
+		alphabet := "send(Initial|Handshake|0-RTT|1-RTT) = PeekPacketNumber + PopPacketNumber + SentPacket (x3 skip distances when the generator draws a new one), ack(space, largest|smallest in flight), retry (ResetForRetry, client), drop-initial, drop-handshake"
+		if cfg.initialOnly {
+			alphabet = fmt.Sprintf("spec (one of %d: InitPacketNumber 2^(8L)-2 | 2^(8L)-1 | 2^(8L) x InitPacketNumberLength L | InitPacketNumberLengths [L] | [4,L], L = 1..4, below 2^32), then send(Initial) = PeekPacketNumber + PopPacketNumber + SentPacket, ack(largest|smallest Initial in flight), retry (ResetForRetry, once, before any acknowledgement), lose (10 s pass + OnLossDetectionTimeout, at most twice)", len(cfg.table()))
+		}
 		return explore.BFSSpec{
 			New:              func() explore.Instance { return c05SphNew(cfg) },
 			MaxDepth:         depth,
 			PanicIsViolation: true,
-			Rule: fmt.Sprintf("BFS over the real sentPacketHandler behind uSentPacketHandler (%s, first packet number %d, uQUIC Initial packet number spec: %v); alphabet: send(Initial|Handshake|0-RTT|1-RTT) = PeekPacketNumber + PopPacketNumber + SentPacket (x3 skip distances when the generator draws a new one), ack(space, largest|smallest in flight), retry (ResetForRetry, client), drop-initial, drop-handshake; state = canon(packet number generators, histories, ACK state) + ledger",
-				cfg.pers, cfg.start, cfg.uquic),
+			Rule: fmt.Sprintf("BFS over the real sentPacketHandler behind uSentPacketHandler (%s, first packet number %d, uQUIC Initial packet number spec: %v); alphabet: %s; state = canon(packet number generators, histories, ACK state) + ledger",
+				cfg.pers, cfg.start, cfg.uquic, alphabet),
 		}
 	})
 }
